@@ -173,10 +173,6 @@ impl Model {
         self.worktop.get(&r).map(|c| &self.containers[*c].hold)
     }
 
-    pub fn bucket_holding(&self, b: u32) -> Option<&Holding> {
-        self.buckets.get(&b).map(|c| &self.containers[*c].hold)
-    }
-
     fn empty_holding(&self, r: usize) -> Holding {
         if self.res[r].fungible {
             Holding::F(BigInt::zero())
